@@ -321,73 +321,76 @@ def t3_kinds(ctx: Ctx) -> None:
     R2 = 'G3.isna-dispatch'
     ctx.rule(R2, 'isna_array dispatches inexact kinds to np.isnan, NaT kinds to np.isnat, every other '
              'non-object kind to an all-False array, and object arrays to (x != x) | (x == None)', floor=4)
+    # finite case analysis, per dtype kind and per path (no dependence on how the dispatch is spelled: if / elif chain, early returns, locals):
+    # for each of the eleven kinds the returns reachable under the kind tests are collected, with single-definition locals inlined
+    from sfa import flow as _flow
+    from sfa import roles as _roles
+    from sfa.rules import narules as _na
     f = ctx.prog.func('util.isna_array')
-    kind_var = None
-    for s in f.node.body:
-        if isinstance(s, ast.Assign) and norm(s.value).endswith('.dtype.kind') and isinstance(s.targets[0], ast.Name):
-            kind_var = s.targets[0].id
-    ctx.require(kind_var is not None, 'isna_array reads array.dtype.kind')
     arr = f.params[0]
-    chain_if = next((s for s in f.node.body if isinstance(s, ast.If)), None)
-    ctx.require(chain_if is not None, 'isna_array has its if-chain')
-    seen = set()
-    cur: tp.Optional[ast.If] = chain_if
-    while cur is not None:
-        t = cur.test
-        ret = cur.body[0] if cur.body and isinstance(cur.body[0], ast.Return) else None
-        label = None
-        if isinstance(t, ast.Compare) and isinstance(t.left, ast.Name) and t.left.id == kind_var:
-            cmp_to = t.comparators[0]
-            op = t.ops[0]
-            if isinstance(op, ast.In) and isinstance(cmp_to, ast.Name):
-                label = cmp_to.id
-            elif isinstance(op, ast.NotEq) and isinstance(cmp_to, ast.Constant) and cmp_to.value == 'O':
-                label = 'non-object'
-            elif isinstance(op, ast.NotEq) and isinstance(cmp_to, ast.Name) and cmp_to.id == 'DTYPE_OBJECT_KIND':
-                label = 'non-object'
-        if label is None or ret is None or not isinstance(ret.value, ast.Call):
-            ctx.unk(R2, f, cur, 'unrecognised dispatch branch')
+    table = _na._const_table(ctx.prog)
+    kind_names = set(_roles.assigned_from_all(f.node, lambda v: isinstance(v, ast.Attribute) and v.attr == 'kind'))
+    ctx.require(bool(kind_names), 'isna_array reads array.dtype.kind')
+    inl = _roles.Inliner(f.node)
+    ne = (f'np.not_equal({arr}, {arr})', f'{arr} != {arr}')
+    eq = (f'np.equal({arr}, None)', f'{arr} == None')
+
+    def shape_of(txt: str) -> str:
+        if txt == f'np.isnan({arr})':
+            return 'isnan'
+        if txt == f'np.isnat({arr})':
+            return 'isnat'
+        if txt.replace(' ', '') in (f'np.full({arr}.shape,False,dtype=DTYPE_BOOL)', f'np.full({arr}.shape,False,dtype=bool)', f'np.full({arr}.shape,False)',
+                                     f'np.full({arr}.shape,False,DTYPE_BOOL)', f'np.full(dtype=DTYPE_BOOL,fill_value=False,shape={arr}.shape)'):
+            return 'all-false'
+        t2 = txt.replace('(', '').replace(')', '')
+        for n_ in ne:
+            n2 = n_.replace('(', '').replace(')', '')
+            if t2 == n2:
+                return 'self-unequal'
+            for e_ in eq:
+                e2 = e_.replace('(', '').replace(')', '')
+                if t2 in (f'{n2} | {e2}', f'{e2} | {n2}'):
+                    return 'self-unequal-or-none'
+        return 'other:' + txt[:50]
+    want = {'f': {'isnan'}, 'c': {'isnan'}, 'M': {'isnat'}, 'm': {'isnat'}, 'O': {'self-unequal', 'self-unequal-or-none'}}
+    groups = {'DTYPE_INEXACT_KINDS': 'fc', 'DTYPE_NAT_KINDS': 'Mm', 'non-object': 'biuSUV', 'object': 'O'}
+    verdict: tp.Dict[str, tp.List[str]] = {}
+    none_tested = False
+    for k in 'biufcmMOSUV':
+
+        class C(_flow.Client):
+            def __init__(self):
+                self.rets: tp.List[ast.Return] = []
+
+            def join(self, a, b):
+                return a
+
+            def refine(self, atom, st, truth):
+                v = _na._eval_kind_test(atom, kind_names, k, table)
+                if v is not None and v != truth:
+                    return None
+                return st
+
+            def on_return(self, s_, st):
+                if s_.value is not None and not any(r is s_ for r in self.rets):
+                    self.rets.append(s_)
+        c = C()
+        _flow.Engine(c).run(f.node.body, True)
+        shapes = sorted({shape_of(norm(inl.expr(r.value))) for r in c.rets})
+        verdict[k] = shapes
+        if k == 'O' and 'self-unequal-or-none' in shapes:
+            none_tested = True
+    for label, kinds in groups.items():
+        key = f'branch:{label}'
+        bad = [(k, verdict[k]) for k in kinds if not verdict[k] or not set(verdict[k]) <= want.get(k, {'all-false'})]
+        if bad:
+            k, got = bad[0]
+            ctx.bad(R2, f, f.node, f'for dtype kind {k!r} isna_array returns {got or "nothing"}; expected {sorted(want.get(k, {"all-false"}))}', key=key)
+        elif label == 'object' and not none_tested:
+            ctx.bad(R2, f, f.node, 'object branch never tests for None', key=key)
         else:
-            callee = call_name(ret.value)
-            seen.add(label)
-            if label == 'DTYPE_INEXACT_KINDS':
-                good = callee == 'np.isnan' and unparse(ret.value.args[0]) == arr
-            elif label == 'DTYPE_NAT_KINDS':
-                good = callee == 'np.isnat' and unparse(ret.value.args[0]) == arr
-            elif label == 'non-object':
-                a = ret.value.args
-                good = callee == 'np.full' and len(a) >= 2 and isinstance(a[1], ast.Constant) and a[1].value is False \
-                    and unparse(a[0]) == f'{arr}.shape'
-            else:
-                good = False
-            (ctx.ok if good else ctx.bad)(R2, f, ret, f'kind in {label} -> {norm(ret.value)}', key=f'branch:{label}')
-        nxt = cur.orelse
-        cur = nxt[0] if len(nxt) == 1 and isinstance(nxt[0], ast.If) else None
-    for want in ('DTYPE_INEXACT_KINDS', 'DTYPE_NAT_KINDS', 'non-object'):
-        if want not in seen:
-            ctx.bad(R2, f, chain_if, f'dispatch branch for {want} is missing', key=f'branch:{want}')
-    # object tail: every remaining return is built from not_equal(x, x) [| equal(x, None)]
-    tail_returns = [s for s in walk_local(f.node) if isinstance(s, ast.Return) and not _inside(s, chain_if)]
-    ok_tail = False
-    for r in tail_returns:
-        txt = norm(r.value)
-        ne = f'np.not_equal({arr}, {arr})'
-        eq = f'np.equal({arr}, None)'
-        if txt in (ne, f'{ne} | {eq}', f'{eq} | {ne}', f'({arr} != {arr}) | ({arr} == None)', f'{arr} != {arr}'):
-            ok_tail = True
-        else:
-            ctx.bad(R2, f, r, f'object branch returns `{txt}`, expected (x != x) | (x == None)', key='branch:object')
-            ok_tail = None
-            break
-    if ok_tail:
-        # the include_none default path must include the None test
-        full = [r for r in tail_returns if 'None' in norm(r.value)]
-        if full:
-            ctx.ok(R2, f, full[0], 'object arrays: (x != x) | (x == None)', key='branch:object')
-        else:
-            ctx.bad(R2, f, tail_returns[0], 'object branch never tests for None', key='branch:object')
-    elif ok_tail is False:
-        ctx.bad(R2, f, f.node, 'object branch missing', key='branch:object')
+            ctx.ok(R2, f, f.node, f'kinds {kinds!r}: {verdict[kinds[0]]}', key=key)
 
 
 def _inside(node: ast.AST, container: ast.AST) -> bool:
